@@ -7,7 +7,7 @@ from harness import core
 from harness.core import Outcome
 
 ID = "C12"
-LEAN_TARGETS = ["BeyondVerif.Props.C12", "BeyondVerif.Props.C12Lines", "BeyondVerif.Props.C12Orb", "BeyondVerif.Witness.C12"]
+LEAN_TARGETS = ["BeyondVerif.Props.C12", "BeyondVerif.Props.C12Lines", "BeyondVerif.Props.C12Orb", "BeyondVerif.Props.C12Float", "BeyondVerif.Witness.C12"]
 THEOREMS = [
     "BeyondVerif.C12.checksum_detects_digit_error",
     "BeyondVerif.C12.valid_iff",
@@ -38,6 +38,19 @@ THEOREMS = [
     "BeyondVerif.C12.read_reflects_current_values",
     "BeyondVerif.C12.history_independent_of_source",
     "BeyondVerif.C12.reads_do_not_change_the_orbit",
+    "BeyondVerif.C12.format_within_half_unit",
+    "BeyondVerif.C12.angle_grid_range",
+    "BeyondVerif.C12.drag_exponent_found",
+    "BeyondVerif.C12.drag_five_digits",
+    "BeyondVerif.C12.drag_normal_form",
+    "BeyondVerif.C12.epoch_century",
+    "BeyondVerif.C12.epoch_within_half_unit",
+    "BeyondVerif.C12.wide_roundtrip",
+    "BeyondVerif.C12.second_generation_fixed",
+    "BeyondVerif.C12.offgrid_idempotent_from_second_generation",
+    "BeyondVerif.C12.quantize_wide",
+    "BeyondVerif.C12.offgrid_written_valid",
+    "BeyondVerif.C12.offgrid_three_generations",
     "BeyondVerif.C12W.leading_blank_now_harmless",
     "BeyondVerif.C12W.from_string_keeps_valid_entry",
     "BeyondVerif.C12W.ecc_one_refused",
@@ -473,12 +486,62 @@ def gen_float_orbit(rng):
     return real_orbit(vals, date, **data), {"vals": vals, "date": str(date), "epoch": [y, us], "data": data}
 
 
-def o_write(out, rng):
-    """clause 2: any orbit that can be written yields valid lines that parse back to the same elements; writing again is stable"""
+def generations(out, tle, inp):
+    """second and third generation of a written TLE: the third text is the second (offgrid_idempotent_from_second_generation); the second is the
+    first unless the rounding carried (360.0000, day N+1.00000000, 00000-9), and then shows the same angle / instant / value"""
     from beyond.io.tle import Tle
+    t1 = str(tle)
+    try:
+        g2 = Tle.from_orbit(tle.orbit())
+        t2 = str(g2)
+        t3 = str(Tle.from_orbit(g2.orbit()))
+    except Exception as e:  # noqa
+        out.fail("rewrite-raises", "writing the orbit of a written TLE raises", inp, observed=repr(e), expected=t1)
+        return
+    if t3 != t2:
+        out.fail("rewrite-not-stable", "parse -> write is not the identity on a second-generation TLE", inp, observed=t3, expected=t2)
+        return
+    l1, l2 = tle.text.split("\n")
+    carries = []
+    if "360.0000" in l2:
+        carries.append("angle-360.0000")
+    if "00000-9" in l1:
+        carries.append("zero-mantissa-exponent-9")
+    yy, day = int(l1[18:20]), l1[20:32]
+    if day in ("366.00000000", "367.00000000") and int(day[:3]) == (367 if is_leap(full_year(yy)) else 366):
+        carries.append("day-after-year-end")
+    for c in carries:
+        out.tally("written-" + c)
+    if not carries:
+        if t2 != t1:
+            out.fail("rewrite-not-stable", "writing the orbit of a written TLE gives a different text", inp, observed=t2, expected=t1)
+        return
+    # a carry: the second generation names the same angle, instant and value differently
+    a, b = tle, g2
+    import math
+    for nm in ("i", "Ω", "ω", "M"):
+        d = (math.degrees(getattr(a, nm)) - math.degrees(getattr(b, nm))) % 360
+        if min(d, 360 - d) > 1e-9:
+            out.fail("carry-second-generation-" + nm, "after a rounding carry the second generation shows another angle", inp, observed=t2, expected=t1)
+            return
+    if (yy, day[:3]) != (56, "367") and abs((a.epoch.datetime - b.epoch.datetime).total_seconds()) > 1e-6:
+        out.fail("carry-second-generation-epoch", "after a year-end carry the second generation shows another instant", inp, observed=t2, expected=t1)
+        return
+    if (yy, day[:3]) == (56, "367"):
+        out.tally("year-2057-reads-as-1957")       # the documented limit of the two-digit year: outside the quantifier (epochs 1957-2056)
+    if (a.e, a.n, a.ndot, a.bstar, a.ndotdot, a.norad_id, a.cospar_id, a.element_nb, a.revolutions, a.name) != \
+       (b.e, b.n, b.ndot, b.bstar, b.ndotdot, b.norad_id, b.cospar_id, b.element_nb, b.revolutions, b.name):
+        out.fail("carry-second-generation-value", "after a rounding carry the second generation shows other values", inp, observed=t2, expected=t1)
+
+
+def o_write(out, rng):
+    """clause 2: any orbit that can be written yields valid lines that parse back to the same elements; from the second generation on writing is stable"""
     orb, inp = gen_float_orbit(rng)
+    scale = rng.choice(SCALES)
+    orb = with_scale(orb, scale)
+    inp = dict(inp, scale=scale)
     tle, err = write_checks(out, orb, "written TLE does not parse back to the orbit's elements", inp)
-    out.count(key=repr(inp["vals"]), kind="write-float", writable=tle is not None)
+    out.count(key=repr(inp["vals"]), kind="write-float", writable=tle is not None, scale=scale)
     if tle is None:
         out.tally("unwritable=" + err[:24])
         e = inp["vals"][2]
@@ -488,24 +551,125 @@ def o_write(out, rng):
             out.fail("write-small-drag-unwritable" if small else "write-in-range-unwritable", "an orbit inside the ranges of the format cannot be written", inp,
                      observed=err, expected="a TLE")
         return
-    # second generation: text -> orbit -> text must be a fixed point unless an angle was rounded up to 360.0000
-    l1, l2 = tle.text.split("\n")
-    if "360.0000" in l2:
-        out.tally("written-angle-360.0000")
+    generations(out, tle, inp)
+
+
+FOREIGN = [("cartesian", "TEME"), ("keplerian", "TEME"), ("cartesian", "EME2000"), ("keplerian_mean", "EME2000"), ("spherical", "TEME"), ("cartesian", "ITRF"), ("tle", "EME2000")]
+
+
+def o_foreign_form(out, rng):
+    """Tle.from_orbit on an orbit held in another form / frame: the argument is left as it was (the conversion is made on a copy), and the text is
+    the one of the explicitly converted copy"""
+    import numpy as np
+    from beyond.io.tle import Tle
+    r = gen_rec(rng)
+    if r["e7"] > 9 * 10**6 or r["n8"] < 10**7:
+        r["e7"], r["n8"] = 6703, 1572125391         # conversions through cartesian need a proper ellipse
+    base = rec_to_orbit(r)
+    form, frame = rng.choice(FOREIGN)
+    try:
+        orb = base.copy(form=form, frame=frame)
+    except Exception:  # noqa
         return
-    if "00000-9" in l1:
-        # |x| < 0.5e-14 is written as a zero mantissa with exponent -9; the second generation writes the canonical zero 00000-0
-        out.tally("written-zero-mantissa-exponent-9")
+    before = (np.array(orb).copy(), orb.form.name, orb.frame.name, str(orb.date))
+    if not np.all(np.isfinite(before[0])):
+        out.tally("foreign-form-not-finite-skipped")
         return
-    yy, day = int(l1[18:20]), l1[20:32]
-    if day in ("366.00000000", "367.00000000") and int(day[:3]) == (367 if is_leap(full_year(yy)) else 366):
-        # the last half 1e-8 day of a year is written as day (number of days + 1).00000000 of the same year: same instant,
-        # second generation names it day 1 of the next year
-        out.tally("written-day-after-year-end")
+    out.count(key=(spec_text(r), form, frame), kind="foreign-form", form=form, frame=frame)
+    inp = {"record": r, "form": form, "frame": frame}
+    try:
+        want = str(Tle.from_orbit(orb.copy(form="TLE", frame="TEME")))
+    except Exception as e:  # noqa
+        want = real_error_token(e)
+    try:
+        got = str(Tle.from_orbit(orb))
+    except Exception as e:  # noqa
+        got = real_error_token(e)
+    after = (np.array(orb).copy(), orb.form.name, orb.frame.name, str(orb.date))
+    if not (np.array_equal(before[0], after[0]) and before[1:] == after[1:]):
+        out.fail("from-orbit-modifies-argument", "Tle.from_orbit converted the caller's orbit in place", inp,
+                 observed=[after[1], after[2], [float(x) for x in after[0]]], expected=[before[1], before[2], [float(x) for x in before[0]]])
         return
-    again = str(Tle.from_orbit(tle.orbit()))
-    if again != str(tle):
-        out.fail("rewrite-not-stable", "writing the orbit of a written TLE gives a different text", inp, observed=again, expected=str(tle))
+    if got != want:
+        out.fail("from-orbit-foreign-form", "Tle.from_orbit of an orbit in another form/frame differs from the text of its converted copy", inp, observed=got, expected=want)
+
+
+def o_from_string_modes(out, rng):
+    """the options of Tle.from_string: error='raise' stops with TleParseError at the first refused entry (the entries before it are yielded),
+    error='warn' logs one warning per refused entry and yields what 'ignore' yields; another comment mark"""
+    import logging
+    from beyond.io.tle import Tle, TleParseError
+    lines, toks = gen_line_tokens(rng, allow_blank_drag=False)
+    atts = spec_attempts(lines)
+    verdicts = [try_parse("\n".join(a)) for a in atts]
+    out.count(key="\n".join(lines), kind="from-string-modes")
+    inp = {"lines": lines, "tokens": toks, "mode": "raise"}
+    # raise
+    n_before = next((k for k, v in enumerate(verdicts) if v[0] != "ok"), len(verdicts))
+    got, end = real_from_string(lines, error="raise")
+    want_end = "done" if n_before == len(verdicts) else "TleParseError"
+    if end != want_end or [g[1] for g in got] != [v[1].text for v in verdicts[:n_before]]:
+        out.fail("from-string-error-raise", "Tle.from_string(error='raise') does not stop with TleParseError at the first refused entry", inp,
+                 observed=[end] + [g[1] for g in got], expected=[want_end] + [v[1].text for v in verdicts[:n_before]])
+        return
+    # warn
+    class H(logging.Handler):
+        def __init__(self):
+            super().__init__()
+            self.n = 0
+
+        def emit(self, record):
+            if record.levelno >= logging.WARNING:
+                self.n += 1
+    h = H()
+    lg = logging.getLogger("beyond.io.tle")
+    lg.addHandler(h)
+    old = lg.level
+    lg.setLevel(logging.WARNING)
+    try:
+        got, end = real_from_string(lines, error="warn")
+    finally:
+        lg.removeHandler(h)
+        lg.setLevel(old)
+    n_bad = sum(1 for v in verdicts if v[0] != "ok")
+    if end != "done" or [g[1] for g in got] != [v[1].text for v in verdicts if v[0] == "ok"] or h.n != n_bad:
+        out.fail("from-string-error-warn", "Tle.from_string(error='warn') does not yield the accepted entries with one warning per refused entry", dict(inp, mode="warn"),
+                 observed=[end, h.n] + [g[1] for g in got], expected=["done", n_bad] + [v[1].text for v in verdicts if v[0] == "ok"])
+        return
+    # another comment mark: lines starting with ';' are skipped, lines starting with '#' are ordinary (name) lines
+    lines2 = []
+    for l in lines:
+        lines2.append(l)
+        if rng.random() < 0.2:
+            lines2.append("; remark")
+    try:
+        got = [(t.name, t.text) for t in Tle.from_string("\n".join(lines2), comments=";", error="ignore")]
+        end = "done"
+    except Exception as e:  # noqa
+        got, end = [], type(e).__name__
+
+    def kind2(l):
+        if not l.strip() or l.startswith(";"):
+            return "skip"
+        return "one" if l.startswith("1 ") else ("two" if l.startswith("2 ") else "other")
+    # the same window rule with the other mark
+    exp = []
+    p2 = p1 = None
+    for x in lines2:
+        k = kind2(x)
+        if k == "skip":
+            continue
+        if k == "two":
+            w = [] if p1 is None else (([p1] if (p2 is None or p2.startswith("1 ")) else [p2, p1]) if p1.startswith("1 ") else [p1])
+            kk, t = try_parse("\n".join(w + [x]))
+            if kk == "ok":
+                exp.append((t.name, t.text))
+            p2 = p1 = None
+        else:
+            p2, p1 = p1, x
+    if end != "done" or got != exp:
+        out.fail("from-string-comments-option", "Tle.from_string(comments=';') does not skip exactly the lines starting with that mark", {"lines": lines2, "tokens": toks, "mode": "comments"},
+                 observed=[end] + [g[1] for g in got], expected=["done"] + [e[1] for e in exp])
 
 
 def o_write_grid(out, r):
@@ -1139,8 +1303,28 @@ def oracle(ctx, widened):
         o_history(out, rng)
     for _ in range(3 if big else 1):
         o_history_directed(out, rng)
+    for _ in range(1500 if big else 150):
+        o_foreign_form(out, rng)
+    for _ in range(1500 if big else 150):
+        o_from_string_modes(out, rng)
     out.sample({"checked": "parse->write identity, write->parse elements, 69 columns + checksums, every digit/length/line-number corruption rejected, from_string yields exactly the valid entries"})
     return out
+
+
+def replay_modes(out, i):
+    """re-run the option checks of Tle.from_string on recorded lines"""
+    import random as _r
+    import harness.props.C12 as me
+    saved = me.gen_line_tokens
+    lines = [l for l in i["lines"] if l != "; remark"]
+    me.gen_line_tokens = lambda rng, n=None, allow_blank_drag=True: (lines, i["tokens"])
+    try:
+        for seed in range(5):
+            o_from_string_modes(out, _r.Random(seed))
+            if out.failures:
+                break
+    finally:
+        me.gen_line_tokens = saved
 
 
 def replay(f):
@@ -1182,6 +1366,28 @@ def replay(f):
         k, t = try_parse(i["text"])
         if k == "ok" or k.startswith("other"):
             out.fail(fam, f["what"], i, observed=k)
+    elif "form" in i and "frame" in i:
+        import random as _r
+        rr = dict(i["record"])
+        for k in ("ndot", "ndd", "bstar"):
+            rr[k] = tuple(rr[k])
+
+        class Fixed(_r.Random):
+            def choice(self, seq):
+                return (i["form"], i["frame"]) if seq is FOREIGN else super().choice(seq)
+        import harness.props.C12 as me
+        saved = me.gen_rec
+        me.gen_rec = lambda rng, named=None: rr
+        try:
+            o_foreign_form(out, Fixed(0))
+        finally:
+            me.gen_rec = saved
+        for x in out.failures:
+            x["family"] = fam
+    elif "lines" in i and "mode" in i:
+        replay_modes(out, i)
+        for x in out.failures:
+            x["family"] = fam
     elif "lines" in i and "tokens" in i:
         judge_from_string_lines(out, i["lines"], i["tokens"], fam.rsplit("-", 1)[-1] if False else "replay")
         for x in out.failures:
